@@ -6,6 +6,8 @@ import Amgcl.Model.Deflation
 handlers for the composite preconditioners (C18).  Dense matrices are written `r c v₁₁ … v_rc` (row-major).
 
   comp_schur     nt type adjust_p approx_schur simplec_dia K pmask Umat Pmat f
+  comp_schur_mv  nt adjust_p approx_schur simplec_dia K pmask Umat k (alpha beta x y){k} f xr
+                 (k calls `spmv(alpha, S, x, beta, y)` of the matrix-free operator, then `residual(f, S, xr)`)
   comp_cpr       B active_rows K skind Smat Pmat f
   comp_cpr_upd   B active_rows K skind Smat Pmat f upd K2
   comp_cprb      B active_rows Kb skind Smat Pmat f            (Kb: CRS of row-major B×B blocks)
@@ -78,6 +80,21 @@ def schur (nt type adj : Nat) (approx simplec : Bool) (A : CRS Rat) (pm : Array 
       "x2u", showCRS S.x2u, "x2p", showCRS S.x2p, "u2x", showCRS S.u2x, "p2x", showCRS S.p2x,
       "Ld", showOVec S.Ld, "Lm", showOCRS S.Lm, "M", showOVec S.M,
       "S", showVec sDense, "ex", showBool uex, showBool pex, "x", showVec x]
+
+/-- the object as the operator the pressure solver iterates on: `spmv(α, S, x, β, y)` for arbitrary `α`, `β` and
+`residual(f, S, xr)` -/
+def schurMv (nt adj : Nat) (approx simplec : Bool) (A : CRS Rat) (pm : Array Bool) (Um : DenseM)
+    (calls : List (Rat × Rat × Vec Rat × Vec Rat)) (f xr : Vec Rat) : String :=
+  if !(squareWF A && pm.size == A.nrows && nt ≥ 1 && calls.length ≥ 1 && calls.length ≤ 64) then badInput else
+  let prm : Schur.Params := { type := 1, approxSchur := approx, adjustP := adj, simplecDia := simplec }
+  let S := Schur.init nt prm A pm
+  if !(Um.r == S.nu && Um.c == S.nu) then badInput else
+  if !(calls.all (fun c => c.2.2.1.size == S.np && c.2.2.2.size == S.np) && f.size == S.np && xr.size == S.np) then
+    badInput else
+  if Schur.readsUninit prm S.dia then "uninit" else
+  let U := Um.mulVec
+  joinSp (calls.flatMap (fun c => ["y", showVec (S.spmv U c.1 c.2.2.1 c.2.1 c.2.2.2)])
+    ++ ["r", showVec (S.residual U f xr)])
 
 -- CPR --------------------------------------------------------------------------------------------------------
 
@@ -200,6 +217,14 @@ def handle (op : String) (args : List String) : Option String :=
         let A ← pCRS; let pm ← pMask; let Um ← pDense; let Pm ← pDense; let f ← pVec
         pure (nt, type, adj, ap, sd, A, pm, Um, Pm, f)) args
       fun (nt, type, adj, ap, sd, A, pm, Um, Pm, f) => schur nt type adj ap sd A pm Um Pm f
+  | "comp_schur_mv" => withArgs (do
+        let nt ← pNat; let adj ← pNat; let ap ← pBool; let sd ← pBool
+        let A ← pCRS; let pm ← pMask; let Um ← pDense; let k ← pNat
+        if k = 0 || k > 64 then fail
+        let calls ← pMany k (do let a ← pRat; let b ← pRat; let x ← pVec; let y ← pVec; pure (a, b, x, y))
+        let f ← pVec; let xr ← pVec
+        pure (nt, adj, ap, sd, A, pm, Um, calls, f, xr)) args
+      fun (nt, adj, ap, sd, A, pm, Um, calls, f, xr) => schurMv nt adj ap sd A pm Um calls f xr
   | "comp_cpr" => withArgs (do
         let B ← pNat; let act ← pNat; let A ← pCRS; let sk ← pNat; let Sm ← pDense; let Pm ← pDense; let f ← pVec
         pure (B, act, A, sk, Sm, Pm, f)) args
